@@ -190,11 +190,22 @@ func genC17(verifSeed int64, tier string, idx int) *core.Scenario {
 			weights[i] = 1 + r.Intn(4)
 		}
 	}
+	replacing := false
 	if r.Intn(2) == 0 { // focus runs: one family of entry points only, so that its calls meet each other
 		for i := range weights {
 			weights[i] = 0
 		}
-		switch r.Intn(7) {
+		fk := r.Intn(11)
+		if fk >= 9 {
+			fk -= 2 // the two replacing-a-driver shapes get a double share
+		}
+		switch fk {
+		case 7: // replacing a driver while documents of that format are parsed through one shared reader
+			weights[2], weights[9], weights[12] = 2, 4, 1
+			replacing = true
+		case 8: // replacing a driver while documents are written in that format through one shared writer
+			weights[5], weights[10], weights[13] = 2, 4, 1
+			replacing = true
 		case 4: // parsing only (streams and files)
 			weights[9], weights[12] = 3, 2
 		case 5: // writing only
@@ -233,6 +244,9 @@ func genC17(verifSeed int64, tier string, idx int) *core.Scenario {
 	hot := []string{allFmts[r.Intn(len(allFmts))], allFmts[r.Intn(len(allFmts))]}
 	for t := 0; t < ntasks; t++ {
 		nops := 1 + r.Intn(4)
+		if replacing {
+			nops = 2 + r.Intn(3)
+		}
 		var ops []Op
 		for i := 0; i < nops; i++ {
 			k := pick()
@@ -240,6 +254,9 @@ func genC17(verifSeed int64, tier string, idx int) *core.Scenario {
 			f := hot[r.Intn(len(hot))]
 			if r.Intn(4) == 0 {
 				f = allFmts[r.Intn(len(allFmts))]
+			}
+			if replacing {
+				f = hot[0]
 			}
 			switch k {
 			case "RNew":
@@ -269,9 +286,22 @@ func genC17(verifSeed int64, tier string, idx int) *core.Scenario {
 			case "Write", "WriteFile":
 				op.D, op.F, op.I = t, f, r.Intn(5)
 			}
+			switch k {
+			case "Sniff", "SniffFile", "Parse", "ParseFile", "Write", "WriteFile":
+				// through one Reader / Writer / Sniffer object that all tasks share (built before the fork in pre-initialised runs)
+				if r.Intn(3) == 0 || (replacing && r.Intn(2) == 0) {
+					op.A = "shared"
+				}
+				if replacing && (k == "Parse" || k == "ParseFile") {
+					op.F = f
+				}
+			}
 			ops = append(ops, op)
 		}
 		sp.Tasks = append(sp.Tasks, ops)
+	}
+	if replacing {
+		sp.PreInit = true
 	}
 	sc := &core.Scenario{V: 1, Property: "C17", Engine: "concur", VerifSeed: verifSeed, Run: idx, RunSeed: seed}
 	sc.Sched = genSched(r, seed)
@@ -311,6 +341,9 @@ type c17env struct {
 	initR     map[string]string // initial registries: format -> tag
 	initW     map[string]string
 	disk      *simos.Disk
+	sharedR   *reader.Reader // objects used by several tasks at once (nil: every call builds its own)
+	sharedW   *writer.Writer
+	sharedS   *formats.Sniffer
 }
 
 func sniffOutcome(f formats.Format, err error) string {
@@ -502,6 +535,7 @@ func execC17(sc *core.Scenario) *core.Result {
 	}
 	if sp.PreInit {
 		writer.New()
+		env.sharedR, env.sharedW, env.sharedS = reader.New(), writer.New(), &formats.Sniffer{}
 	}
 
 	// the file entry points (ParseFile, SniffFile, WriteFile) work on a simulated disk
@@ -660,26 +694,26 @@ func (env *c17env) mkOp(rec *opRec) func() string {
 	case "Sniff":
 		b := env.streams[op.S]
 		return func() string {
-			f, err := (&formats.Sniffer{}).SniffReader(bytes.NewReader(b))
+			f, err := env.snifferFor(op).SniffReader(bytes.NewReader(b))
 			return sniffOutcome(f, err)
 		}
 	case "Parse":
 		b := env.streams[op.S]
 		return func() string {
-			r := reader.New()
+			r := env.readerFor(op)
 			d, err := r.ParseStreamWithOptions(bytes.NewReader(b), &reader.Options{Format: formats.Format(op.F), UnserializeOptions: &native.UnserializeOptions{}})
 			return parseOutcome(d, err)
 		}
 	case "SniffFile":
 		path := fmt.Sprintf("/in/s%d", op.S)
 		return func() string {
-			f, err := (&formats.Sniffer{}).SniffFile(path)
+			f, err := env.snifferFor(op).SniffFile(path)
 			return sniffOutcome(f, err)
 		}
 	case "ParseFile":
 		path := fmt.Sprintf("/in/s%d", op.S)
 		return func() string {
-			r := reader.New()
+			r := env.readerFor(op)
 			if op.F == "" {
 				d, err := r.ParseFile(path)
 				return parseOutcome(d, err)
@@ -695,7 +729,7 @@ func (env *c17env) mkOp(rec *opRec) func() string {
 			path = fmt.Sprintf("/out/t%d_%d.json", rec.Task, rec.Index)
 		}
 		return func() string {
-			w := writer.New()
+			w := env.writerFor(op)
 			err := w.WriteFileWithOptions(d, path, &writer.Options{Format: formats.Format(op.F),
 				RenderOptions: &native.RenderOptions{Indent: op.I}, SerializeOptions: &native.SerializeOptions{}})
 			s := &sink{}
@@ -707,7 +741,7 @@ func (env *c17env) mkOp(rec *opRec) func() string {
 	case "Write":
 		d := env.docs[op.D]
 		return func() string {
-			w := writer.New()
+			w := env.writerFor(op)
 			s := &sink{}
 			err := w.WriteStreamWithOptions(d, s, &writer.Options{Format: formats.Format(op.F),
 				RenderOptions: &native.RenderOptions{Indent: op.I}, SerializeOptions: &native.SerializeOptions{}})
@@ -715,6 +749,27 @@ func (env *c17env) mkOp(rec *opRec) func() string {
 		}
 	}
 	return func() string { return "unknown-op" }
+}
+
+func (env *c17env) readerFor(op Op) *reader.Reader {
+	if op.A == "shared" && env.sharedR != nil {
+		return env.sharedR
+	}
+	return reader.New()
+}
+
+func (env *c17env) writerFor(op Op) *writer.Writer {
+	if op.A == "shared" && env.sharedW != nil {
+		return env.sharedW
+	}
+	return writer.New()
+}
+
+func (env *c17env) snifferFor(op Op) *formats.Sniffer {
+	if op.A == "shared" && env.sharedS != nil {
+		return env.sharedS
+	}
+	return &formats.Sniffer{}
 }
 
 // ---- the sequential model (Appendix B of DESIGN.md) ----
